@@ -10,7 +10,7 @@ from __future__ import annotations
 from collections import Counter
 
 from ..spec import features
-from ..world import SynthWorld, render_value
+from ..world import SynthWorld, make_world, render_value
 
 ID = "C11"
 LEVEL = "exploration"
@@ -49,7 +49,7 @@ class RefMeta:
         if isinstance(x, (list, tuple)):
             return list(x)
         n = self.ref.cls_of(x)
-        return [getattr(x, fn) for fn, _ in self.ref.cls[n]["fields"]]
+        return [self.ref.field(x, n, fn) for fn, _ in self.ref.cls[n]["fields"]]
 
     def meta(self, x):
         """(nodes, dist, weighted, index Counter of (typename, id-or-value))"""
@@ -178,9 +178,16 @@ def other_grammar_activity(ctx, w):
         pass  # unjudged
 
 
+def directed(tier):
+    """the shipped grammars and the test-suite hierarchies (real classes) under seeded configurations"""
+    from ..world import corpus_directed
+
+    return corpus_directed(tier, per_spec_quick=3, per_spec_thorough=12)
+
+
 def run(ctx):
     H = ctx.H
-    w = SynthWorld(ctx, feat=FEAT, reps=("tree", "tree", "tree", "ge", "sge", "dsge", "stack"), delta=(1, 2, 2, 3, 4), deciders=("grow", "full", "full", "pigrow", "progressive"))
+    w = make_world(ctx, FEAT, reps=("tree", "tree", "tree", "ge", "sge", "dsge", "stack"), delta=(1, 2, 2, 3, 4), deciders=("grow", "full", "full", "pigrow", "progressive"))
     try:
         ctx.sample = w.describe()
         if not w.extract().ok:
